@@ -1578,6 +1578,7 @@ def run(ctx):
         part2_dtype(ctx, report)
         import extra_oracles
         extra_oracles.c14_deferred_prepare(ctx, e3nn, ejit, lambda: o3.Linear("2x0e+1x1o", "1x0e+1x1o"))
+        extra_oracles.c14_restore_matrix(ctx, e3nn, ejit)
     finally:
         _reset_defaults(e3nn, saved)
 
